@@ -12,7 +12,7 @@ RENDERS = [{'dialect': 'old', 'mark': '.', 'offset': 0}, {'dialect': 'old', 'mar
 def sessions(ctx):
     def it(rep):
         for tr, render, lab in sessbase.model_sessions(ctx, rep, 'MC_Session_time.cfg', 'gaps around one second with a filter hiding messages in between',
-                                                      ctx.pick(350, 6000), override={'MaxLen': ctx.pick(4, 5)},
+                                                      ctx.pick(350, 4000), override={'MaxLen': 4},
                                                       init={'show': True, 'hasf': True, 'hasb': False,
                                                             'f': {'k': 'pat', 'form': 'bare', 'conn': {'k': 'any'},
                                                                   'obj': {'k': 'type', 't': {'k': 'w', 'p': list('wl_callback')}}}}):
